@@ -536,8 +536,8 @@ def _emit_fn_stub(asm, out, unit, kv, block, default_props, reason):
     for t in block:
         if t.startswith('requires '):
             requires.append(t[9:].strip())
-        elif t.startswith('ensures '):
-            e_ = t[8:].strip()
+        elif t.startswith('ensures ') or t.startswith('ensures! '):
+            e_ = t[9:].strip() if t.startswith('ensures! ') else t[8:].strip()
             m_ = re.match(r'@([\w.]+)\s+(.*)', e_)
             ensures.append((m_.group(1), m_.group(2)) if m_ else e_)
         elif t.startswith('sig '):
@@ -618,6 +618,8 @@ def _emit_fn(asm, out, unit, kv, block, default_props):
     befores = []
     sigsubs = []
     named_asserts = []
+    hintfree = set()
+    hints_lost = []
     for t in block:
         if t.startswith('rewrite '):
             for rule in t.split()[1:]:
@@ -643,13 +645,16 @@ def _emit_fn(asm, out, unit, kv, block, default_props):
             asm.rewrites.append(('subst %r => %r' % (a, b), fname, n))
         elif t.startswith('requires '):
             requires.append(t[9:].strip())
-        elif t.startswith('ensures '):
-            e_ = t[8:].strip()
+        elif t.startswith('ensures ') or t.startswith('ensures! '):
+            bang = t.startswith('ensures! ')
+            e_ = t[9:].strip() if bang else t[8:].strip()
             m_ = re.match(r'@([\w.]+)\s+(.*)', e_)
             if m_:
                 ensures.append((m_.group(1), m_.group(2)))
             else:
                 ensures.append(e_)
+            if bang:
+                hintfree.add(len(ensures))
         elif t.startswith('attr '):
             attrs.append(t[5:].strip())
         elif t.startswith('loop '):
@@ -756,7 +761,12 @@ def _emit_fn(asm, out, unit, kv, block, default_props):
             mask_b = rsx.code_mask(body)
             ms = [m for m in ms if mask_b[m.start()]]
             if len(ms) != 1:
-                raise ExtractError("anchor lost: %s: statement starting %r occurs %d times" % (fname, anchor, len(ms)))
+                if isinstance(text, tuple):
+                    raise ExtractError("anchor lost: %s: statement starting %r occurs %d times" % (fname, anchor, len(ms)))
+                # a proof HINT lost its anchor: skip it; refutations of hint-dependent clauses of this function are then
+                # reported as undecided (a failed proof is not a violated contract)
+                hints_lost.append(anchor)
+                continue
             st = ms[0].start()
             if ba == 'before_stmt':
                 inserts.append((st, text if isinstance(text, tuple) else ' ' + text + ' '))
@@ -855,6 +865,7 @@ def _emit_fn(asm, out, unit, kv, block, default_props):
             else:
                 name = '%s/%s/post#%d' % (unit, fname, k)
             o = Obligation(name, 'post', props, fname, e)
+            o.hintfree = k in hintfree
             obs_local.append(o)
             hdr_lines.append('            %s, %s' % (e.rstrip(','), marker(name)))
     for a in attrs:
@@ -876,6 +887,10 @@ def _emit_fn(asm, out, unit, kv, block, default_props):
         out.append(l.rstrip())
     last = len(out)
     asm.fn_ranges.append((first, last, fname, body_ob))
+    for o in obs_local:
+        o.hints_lost = list(hints_lost)
+    if hints_lost:
+        asm.dropped.append('%s: proof hint(s) skipped, anchor lost: %s' % (fname, '; '.join(hints_lost)))
     asm.obligations.extend(obs_local)
     # Verus function key (for the function-breakdown in --output-json)
     simple = fname.split('::')[-1]
@@ -999,6 +1014,11 @@ def classify(asm, res, canary_name):
             else:
                 o.status = 'refuted'
             o.detail += rendered[:3000] + '\n'
+    for o in asm.obligations:
+        if o.status == 'refuted' and getattr(o, 'hints_lost', None) and not getattr(o, 'hintfree', False):
+            o.status = 'undecided'
+            o.detail = ('not discharged, but proof hint(s) of this function lost their anchor (%s): a failed proof is not a '
+                        'violated contract\n' % '; '.join(o.hints_lost)) + o.detail
     for o in asm.obligations:
         if getattr(o, 'forced', None):
             o.status = o.forced[0]
